@@ -12,7 +12,7 @@ Separate Extraction
   Frame.sock_make_header Frame.udp_make_header Frame.ws_make_header
   Limit.all_transports Limit.pinned_sites Limit.repaired_sites Limit.covers Limit.framed
   Limit.admission Limit.serve Limit.truthful Limit.pinned_guard Limit.rejected
-  Limit.reply_of Limit.client_decode Limit.too_large_text
+  Limit.reply_of Limit.client_decode Limit.caller_outcome Limit.too_large_text
   Limit.sock_reject_frame Limit.ws_reject_msg Limit.udp_reject_dgram
   Limit.sock_server_verdict Limit.ws_server_verdict Limit.udp_server_verdict Limit.http_server_verdict
   Limit.sock_client Limit.udp_client Limit.ws_client.
